@@ -4,6 +4,8 @@ use serde_json::Value;
 pub mod c01;
 pub mod c02;
 pub mod c03;
+pub mod c04;
+pub mod c05;
 pub mod c06;
 pub mod c09;
 pub mod c10;
@@ -20,6 +22,8 @@ pub static REGISTRY: &[Entry] = &[
     Entry { id: "C01", run: c01::run_check, replay: c01::replay },
     Entry { id: "C02", run: c02::run_check, replay: c02::replay },
     Entry { id: "C03", run: c03::run_check, replay: c03::replay },
+    Entry { id: "C04", run: c04::run_check, replay: c04::replay },
+    Entry { id: "C05", run: c05::run_check, replay: c05::replay },
     Entry { id: "C06", run: c06::run_check, replay: c06::replay },
     Entry { id: "C09", run: c09::run_check, replay: c09::replay },
     Entry { id: "C10", run: c10::run_check, replay: c10::replay },
